@@ -250,6 +250,11 @@ Definition round_to_subnormal (m : mode) (me s e : Z) : Z * option rounding :=
     one rounding at the smallest subnormal 2^(-(BIAS-1)-MB) below it; `sign * encode(|man|, me)` *)
 Definition fbig2_to_float (P : enc_params) (m : mode) (s e : Z) : frounded :=
   let '(s, e) := normalize 2 s e in
+  (* fe9a9a4: a top bit beyond TOP_MAX + 1 is an overflow whatever the rounding does; answered before the rounding
+     (next to isize::MAX the exponent of the rounded number is not representable) *)
+  if negb (s =? 0) && (e + dlen 2 s >? TOP_MAX P + 1) then
+    (if s <? 0 then FR (2 ^ (W P - 1) + inf_bits P) (Some SubOne) else FR (inf_bits P) (Some AddOne))
+  else
   if (s =? 0) || (e + dlen 2 s >? - (BIAS P - 1)) then fbig2_to_float_old P m s e
   else
     let me := - (BIAS P - 1) - MB P in
